@@ -390,6 +390,18 @@ def family_con(tier='quick'):
                 cons.append('C3')
             out.append(Desc(nodes, edges, ['S'], choices=choices, constraints=[(ctype, cons)],
                             label=f'con-{ctype}-hier-{nch}'))
+    # unequal option counts (LINKED / PERMUTATION only: the UNORDERED types demand equal counts): 2/3/3 and 3/2/4
+    for ctype in ('LINKED', 'PERMUTATION'):
+        for counts in ((2, 3, 3), (3, 2, 4), (2, 3)):
+            nodes = ['S'] + [f'A{i}' for i in range(len(counts))]
+            edges = [('S', f'A{i}') for i in range(len(counts))]
+            choices = []
+            for i, k in enumerate(counts):
+                opts = [f'c{i}o{j}' for j in range(k)]
+                nodes += opts
+                choices.append((f'C{i + 1}', f'A{i}', opts))
+            out.append(Desc(nodes, edges, ['S'], choices=choices, constraints=[(ctype, [c[0] for c in choices])],
+                            label=f'con-{ctype}-perm-unequal-{"x".join(map(str, counts))}'))
     return out
 
 
@@ -452,6 +464,18 @@ def family_dvmet(tier='quick'):
         out.append(Desc(base_nodes, base_edges + [('B', 'mA'), ('P0', 'mB')], ['A'], choices=ch,
                         metrics=[('mA', 'P1', d, r, t), ('mB', 'P1', d, r, t), ('mC', 'P1', d, r, t)],
                         label=f'met-two-parents-{i}'))
+    # a linked set whose second member is conditional and sorts before an independent node (variables and existence
+    # flags are then indexed through different node lists)
+    out.append(Desc(base_nodes, base_edges, ['A'], choices=ch, constraints=[('LINKED', ['da', 'db'])],
+                    dvs=[('da', 'A', (0.0, 1.0), None), ('db', 'P0', (10.0, 30.0), None), ('dc', 'B', (-2.0, 2.0), None)],
+                    label='dv-linked-conditional-member-before-independent-continuous'))
+    out.append(Desc(base_nodes, base_edges, ['A'], choices=ch, constraints=[('LINKED', ['da', 'db'])],
+                    dvs=[('da', 'A', None, ['x', 'y', 'z']), ('db', 'P0', None, ['u', 'v', 'w']), ('dc', 'P1', None, ['p', 'q'])],
+                    label='dv-linked-conditional-member-before-independent-discrete'))
+    # names that differ only in letter case (ordering keys must not tie): design-variable nodes and choices
+    out.append(Desc(base_nodes, base_edges, ['A'], choices=[('mode', 'A', ['P0', 'P1']), ('Mode', 'B', ['Q0', 'Q1'])] if False else ch,
+                    dvs=[('T', 'B', (0.0, 1.0), None), ('t', 'B', (10.0, 30.0), None), ('Mat', 'A', None, ['x', 'y', 'z'])],
+                    label='dv-names-differ-in-case'))
     # three linked discrete design-variable nodes with a narrower one in the middle of the constraint order
     out.append(Desc(base_nodes, base_edges, ['A'], choices=ch, constraints=[('LINKED', ['dl1', 'dl2', 'dl3'])],
                     dvs=[('dl1', 'B', None, ['a', 'b', 'c', 'd', 'e']), ('dl2', 'A', None, ['u', 'v']),
@@ -556,6 +580,19 @@ def family_conn(tier='quick'):
                         conns=[('g1', d1, False, 'A'), ('g2', d2, False, 'P0'), ('t0', ('min', 0), True, 'Q0')],
                         groups=[('G', ['g1', 'g2'])], conn_choices=[('CC', ['G'], ['t0'], [])],
                         label=f'conn-group-conditional-target-{trial}'))
+    # grouping node over members with gapped degree lists and no unbounded member (its degrees are the sums, not
+    # the range between the extreme sums), on the target and on the source side
+    for trial, (d1, d2) in enumerate(((('list', (0, 2)), ('list', (1,))), (('list', (1, 3)), ('list', (0, 2))))):
+        out.append(Desc(['A', 'P0', 'P1'], [], ['A'], choices=[('C1', 'A', ['P0', 'P1'])],
+                        conns=[('s0', o1, False, 'A'), ('s1', o1, False, 'A'), ('s2', o1, False, 'A'),
+                               ('g1', d1, False, 'A'), ('g2', d2, False, 'P0')],
+                        groups=[('G', ['g1', 'g2'])], conn_choices=[('CC', ['s0', 's1', 's2'], ['G'], [])],
+                        label=f'conn-group-gapped-target-{trial}'))
+        out.append(Desc(['A', 'P0', 'P1'], [], ['A'], choices=[('C1', 'A', ['P0', 'P1'])],
+                        conns=[('t0', o1, False, 'A'), ('t1', o1, False, 'A'), ('t2', o1, False, 'A'),
+                               ('g1', d1, False, 'A'), ('g2', d2, False, 'P0')],
+                        groups=[('G', ['g1', 'g2'])], conn_choices=[('CC', ['G'], ['t0', 't1', 't2'], [])],
+                        label=f'conn-group-gapped-source-{trial}'))
     conns = [('s0', o1, False, 'A'), ('s1', o1, False, 'A'), ('s2', o1, False, 'A'), ('g1', ('min', 1), False, 'A'), ('g2', ('min', 0), False, 'P0')]
     out.append(Desc(['A', 'P0', 'P1'], [], ['A'], choices=[('C1', 'A', ['P0', 'P1'])], conns=conns,
                     groups=[('G', ['g1', 'g2'])], conn_choices=[('CC', ['s0', 's1', 's2'], ['G'], [])],
